@@ -27,9 +27,28 @@ def predicates(concepts, case):
     return B.b08_pair(lat(['px']), lat(['py']), x, y, (1 << n) - 1)
 
 
+def batch(concepts, case):
+    fails = []
+    for c in case['cases']:
+        for f in REPLAYERS[c['kind']](concepts, c):
+            fails.append(f'{c.get("kind")}: {f}')
+    return fails
+
+
 REPLAYERS = {
+    'batch': batch,
     'predicates': predicates,
     'table:C08': table_battery(B.b08),
+    'table:C02': table_battery(B.b02),
+    'table:C03': table_battery(B.b03),
+    'table:C04': table_battery(B.b04),
+    'table:C05': table_battery(B.b05),
+    'table:C06': table_battery(B.b06),
+    'table:C07': table_battery(B.b07),
+    'table:C09': table_battery(B.b09),
+    'table:C10': table_battery(B.b10),
+    'table:C18': table_battery(B.b18),
+    'table:C20': table_battery(B.b20),
     'derivation': derivation,
     'table:C01': table_battery(B.b01),
 }
